@@ -364,6 +364,18 @@ impl Default for KBucket {
 
 #[cfg(mainline_verif)]
 impl RoutingTable {
+    /// Verification hook: the statistics derived from the counters: (size estimate, its standard deviation,
+    /// responders based size estimate, average subnets).
+    pub fn verif_derived(&self) -> (usize, f64, usize, usize) {
+        let (estimate, std_dev) = self.dht_size_estimate();
+        (
+            estimate,
+            std_dev,
+            self.responders_based_dht_size_estimate(),
+            self.average_subnets(),
+        )
+    }
+
     /// Verification hook: (dht_size_estimates_count, dht_size_estimates_sum, responders_samples_count,
     /// responders_size_estimates_sum, responders_subnets_sum).
     pub fn verif_stats(&self) -> (usize, f64, usize, f64, usize) {
